@@ -118,7 +118,7 @@ func runProperty(spec *PropSpec, repo, tier string, writeEvidence bool) int {
 	if os.Getenv("VERIF_KEEP_SCRATCH") == "" {
 		defer os.RemoveAll(scratch)
 	}
-	timeout := 10
+	timeout := 20
 	all := false
 	if tier == "thorough" {
 		timeout = 60
